@@ -20,7 +20,9 @@ class RecDom(RecorderDomain):
 
     def __init__(self, *a, **kw):
         self.variant = kw.pop('variant', 'idle')
+        track_attrs = kw.pop('track_attrs', ())
         RecorderDomain.__init__(self, *a, **kw)
+        self.track_attrs = set(track_attrs)
         self.at_calls = []      # (node, target, state) for selected labels, for rules that inspect call-site states
         self.at_enters = []     # (node, state after parameter binding) for inlined record-output calls
 
@@ -91,7 +93,10 @@ class RecDom(RecorderDomain):
         if lab == 'iface:TapeCassette.abort_recording' and node.frame.func is self.roles.discard:
             st = st.bump(('n', 'discard-abort'))
         if lab in ('iface:TapeCassette.save_recording', 'iface:TapeCassette.abort_recording',
-                   'iface:Recording.add_metadata', 'ctor:Playback') or lab.startswith('libobj:random.Random.random'):
+                   'iface:TapeCassette.create_new_recording',
+                   'iface:Recording.add_metadata', 'ctor:Playback') or lab.startswith('libobj:random.Random.random') or \
+                (lab.startswith('method:get') and isinstance(node.ast, ast.Call) and isinstance(node.ast.func, ast.Attribute)
+                 and _self_attr(node.ast.func.value) == self.roles.class_params):
             self.at_calls.append((node, t, st, state))
         if lab.startswith('libobj:random.Random.random'):
             st = st.bump(('n', 'draw'))
@@ -126,6 +131,14 @@ class RecDom(RecorderDomain):
         return state
 
     def on_stmt(self, node, state):
+        r = self.roles
+        if node.kind == 'join' and node.info.get('finally_tag') and node.frame.func is r.start:
+            state = state.with_extra(scope_exit=node.info['finally_tag'])
+        if node.kind == 'stmt' and isinstance(node.ast, ast.Assign) and node.frame.func is r.force and \
+                any(_self_attr(t) == r.force_flag for t in node.ast.targets):
+            state = state.with_extra(force_requested=True)
+        if node.kind == 'enter' and node.info['callee'].func in (r.sampler, r.start):
+            self.at_enters.append((node, state))
         if node.kind == 'leave' and node.info.get('mode') == 'value' and node.info['callee'].func is self.roles.reader:
             rv = state.env.get(('R', node.frame.id, id(node.ast)))
             if rv is not None:
